@@ -472,3 +472,51 @@ Definition conc_spec_ok (o : conc_obs) : bool :=
     "concurrently = alone". *)
 Definition dav_spec_ok (hang : bool) (cls : list (list string * list string)) : bool :=
   negb hang && forallb (fun c => names_eqb (fst c) (snd c)) cls.
+
+(** * fs_local.go Create as a thread program
+
+    [LocalFileSystem.Create] is not one step: Stat; createTemp in the parent directory;
+    io.Copy of the body into the temporary file; Rename over the target.  Each is a
+    primitive call on the subtree at the client's root (the temporary file lives in
+    the target's own directory [d], so for a non-empty relative path everything
+    stays below the root).  ConcurrentProofs.put_prog_refines: run alone, the program
+    ends with the answer and the tree of the one-step [sem (FPut (d ++ [l]) s)]. *)
+Definition tmp_create (d : path) (tmp : name) : sem_t := fun m =>
+  match sub d m with
+  | Some (Dir _) =>
+    (upd d (fun n => match n with Dir ch => Dir (ch ++ [(tmp, File "")])%list | File _ => n end) m,
+     OStatus 201)
+  | _ => (m, OStatus 409)
+  end.
+
+Definition tmp_write (d : path) (tmp : name) (s : string) : sem_t := fun m =>
+  (upd d (fun n => match n with Dir ch => Dir (modify tmp (fun _ => File s) ch) | File _ => n end) m,
+   OStatus 200).
+
+Definition tmp_rename (d : path) (tmp l : name) : sem_t := fun m =>
+  (upd d (fun n => match n with
+                   | Dir ch =>
+                     match assoc tmp ch with
+                     | Some v => Dir (set_child l v (remove_child tmp ch))
+                     | None => n
+                     end
+                   | File _ => n
+                   end) m,
+   OStatus 200).
+
+Definition put_prog (d : path) (l tmp : name) (s : string) : prog outc :=
+  PCall (sem (FStat (d ++ [l])%list)) (fun o =>
+    match o with
+    | OStat true _ => PRet (OStatus 405)
+    | _ =>
+      let code := match o with OStat _ _ => 204 | _ => 201 end in
+      PCall (tmp_create d tmp) (fun o2 =>
+        if outc_eqb o2 (OStatus 201) then
+          PCall (tmp_write d tmp s) (fun _ =>
+            PCall (tmp_rename d tmp l) (fun _ => PRet (OStatus code)))
+        else PRet (OStatus 409))
+    end).
+
+(** the temporary name is not taken in the target's directory *)
+Definition tmp_fresh (d : path) (tmp : name) (m : node) : Prop :=
+  match sub d m with Some (Dir ch) => assoc tmp ch = None | _ => True end.
